@@ -600,6 +600,14 @@ def gen_spec(rng, fmt=None, maxn=5, maxt=4, small=False):
         spec['lstagger'] = [None, 0, 1][int(rng.integers(3))]
     elif fmt == 'cloud_rain':
         spec['nvars'] = int(rng.choice([5, 5, 3]))
+        # the format carries no variable count: readers tell the old
+        # 3-variable layout from the 5-variable one by the file size.  A
+        # 3-variable file whose data size is also a whole number of
+        # 5-variable steps is ambiguous by construction: not generated.
+        ts = {n: n * spec['nz'] * (spec['nx'] * spec['ny'] + 2) * 4 + 16
+              for n in (3, 5)}
+        while spec['nvars'] == 3 and (spec['nt'] * ts[3]) % ts[5] == 0:
+            spec['nt'] += 1
     elif fmt == 'landuse':
         spec['nt'] = 1
         spec['newstyle'] = bool(rng.random() < 0.5)
